@@ -79,6 +79,9 @@ func withTE(fn func() (T, error)) error {
 	return err
 }
 
+// package-level variables initialised from one multi-value call
+var pkgT, pkgErr = Impl{}.Get()
+
 func firstErr(errs ...error) error {
 	for _, e := range errs {
 		if e != nil {
@@ -200,6 +203,10 @@ func (g *c14Gen) ret(shape string) string {
 	case "err":
 		switch pick {
 		case 0:
+			if rapid.Bool().Draw(g.t, "pkgvar") {
+				g.feats["package-level-tuple-initializer"] = true
+				return "_ = pkgT\nreturn pkgErr"
+			}
 			return "return nil"
 		case 1:
 			return "return E{Code: " + g.intLit() + "}"
@@ -414,6 +421,10 @@ func (g *c14Gen) litFunc(name string) c14Func {
 		}
 	}
 	nret := rapid.IntRange(1, 4).Draw(g.t, "nret")
+	if rapid.IntRange(0, 24).Draw(g.t, "manyreturns") == 0 {
+		nret = rapid.SampledFrom([]int{65, 128, 129, 130, 200}).Draw(g.t, "nmany") // table-like functions
+		g.feats["literal-only-65+returns"] = true
+	}
 	if nret >= 2 {
 		g.feats["literal-only-2+returns"] = true
 	}
